@@ -654,7 +654,8 @@ Qed.
 
 Theorem root_create_file_one root path fl mode : calls_le eff 1 (root_create_file fz cfg pfuel gh ps rs root path fl mode).
 Proof.
-  unfold root_create_file. apply after_parent. intros [dir name]. apply one_then_close.
+  unfold root_create_file. destruct (CREATE_FILE_REFUSES_OPATH && has fl O_PATH); [constructor|].
+  apply after_parent. intros [dir name]. apply one_then_close.
   unfold w_openat, w_openat_follow, rustix_path. destruct (negb (valid_fd dir)); [constructor|].
   destruct (has_nul name); [apply ne_le, fail1_ne|].
   match goal with |- calls_le eff 1 (Call ?c _) => destruct (eff c) eqn:Ec end.
